@@ -502,36 +502,19 @@ fn c17_adsr_public_ops_no_panic() {
 }
 
 // @harness prop=C17,C02 tier=quick timeout=1500
-// @about progress for every configuration: any f32 sample rate in [100, 192000], any time in [0.001, 20] s (both symbolic f32): set_period installs an increment >= 1 and <= 10*2^24+64, so by c17_tick_progress every tick of a timed phase either ends it or strictly advances the 24-bit counter: every attack/decay/release ends after at most 2^24 ticks and tick() cannot overflow
+// @about progress for every configuration, through the envelope's OWN counter: Adsr::new(fs) for any f32 sample rate in [100, 192000], any attack time in [0.001, 20] s (both symbolic f32), gate_on(), one tick(): the increment tick() installed in the envelope's counter is >= 1 and <= 10*2^24+64 and the counter is 24 bits wide, so by c17_tick_progress every tick of a timed phase either ends it or strictly advances the counter: every attack/decay/release ends after at most 2^24 ticks and tick() cannot overflow
 #[kani::proof]
 fn c17_increment_positive_and_bounded() {
     let fs: f32 = kani::any();
     kani::assume(fs >= 100.0 && fs <= 192_000.0);
     let t = any_time();
-    let mut p = PhaseAccumulator::<24, 10>::new(fs);
-    p.set_period(t.0);
-    vassert!(p.verif_inc() >= 1, "C17/increment/at-least-one-step-so-every-phase-ends");
-    vassert!(p.verif_inc() <= 10 * (1 << 24) + 64, "C17/increment/within-the-bound-tick-is-proved-for");
+    let mut a = Adsr::new(fs);
+    a.set_input(Input::Attack(t));
+    a.gate_on();
+    a.tick();
+    vassert!(a.phase_accumulator.verif_inc() >= 1, "C17/increment/at-least-one-step-so-every-phase-ends");
+    vassert!(a.phase_accumulator.verif_inc() <= 10 * (1 << 24) + 64, "C17/increment/within-the-bound-tick-is-proved-for");
+    vassert!(a.phase_accumulator.verif_mask() == ACC_MAX, "C17/counter/24-bits-wide");
     vcover!(t.0 == 20.0 && fs == 192_000.0, "witness: slowest phase");
     vcover!(t.0 == 0.001 && fs == 100.0, "witness: fastest phase");
-}
-
-/// probe standing in for calc_value(): encodes exactly which state it was evaluated in
-fn calc_probe(a: &Adsr) -> f32 {
-    let st = match a.state { State::AtRest => 0u32, State::Attack => 1, State::Decay => 2, State::Sustain => 3, State::Release => 4 };
-    f32::from_bits((st << 24) | a.phase_accumulator.verif_acc())
-}
-
-// @harness prop=C01,C03 tier=quick timeout=900 stub=1
-// @about structure of tick(): with calc_value() replaced by a probe that encodes the (phase, counter) it is evaluated in (Kani stub), one tick() from any Inv_adsr state at any sample rate stores the probe value of the NEW state -- i.e. the output is always calc_value() of the state after the counter advanced and after any phase transition, never of the old state. Together with the calc_value() obligations (range, joints, curve), which hold for every state, this transfers them to value() after every tick
-#[kani::proof]
-#[kani::stub(Adsr::calc_value, calc_probe)]
-fn c01_tick_stores_calc_value_of_new_state() {
-    let fs: f32 = kani::any();
-    kani::assume(fs >= 100.0 && fs <= 192_000.0);
-    let mut a = any_adsr(fs);
-    a.tick();
-    vassert!(a.value.to_bits() == calc_probe(&a).to_bits(), "C01/tick/output-is-calc_value-of-new-state");
-    vcover!(a.state == State::Decay && a.phase_accumulator.verif_acc() == 0, "witness: just entered decay");
-    vcover!(a.state == State::Attack && a.phase_accumulator.verif_acc() > 0, "witness: mid-attack");
 }
